@@ -70,6 +70,7 @@ fixed("C07","C07/syntax-error-not-reported/ttl-out-of-range","caf99ce","a TTL wr
 known("C10","C10/sign-fails/key-tag-0","RRSIG.Sign treats KeyTag 0 as 'not set' and returns ErrKey: an RRset cannot be signed with a key whose RFC 4034 key tag is 0 (one key in 65536; reproduced with a deterministic Ed25519 key)")
 known("C18","C18/sign-fails/key-tag-0","SIG.Sign (and SIG.Verify) treat KeyTag 0 as 'not set' and return ErrKey: SIG(0) cannot be used with a KEY whose key tag is 0 (one key in 65536; reproduced with a deterministic Ed25519 key)")
 fixed("C10","C10/irrelevant-variant-rejected/raw-8bit-spelling/ED25519","8981502","CanonicalName mapped runes instead of octets (strings.Map): every raw octet above 0x7F that is not part of a valid UTF-8 sequence was replaced by U+FFFD, so RRSIGs over names holding such octets did not verify against the same names written with \\DDD escapes; also observable as C19/CanonicalName/raw-8bit")
+fixed("C10","C10/sign-output-labels/ED25519","2936713","RRSIG.Sign took every owner that starts with an asterisk (*ab.example., **.example.) for a wildcard: Labels was one too small and the signature was made over *.example. instead of the RRset's owner; such an RRSIG verifies only within this library and is a valid signature for a wildcard that was never signed (found by the thorough tier at seed 3 through a random label; quick now draws such labels on purpose)")
 fixed("C11","C11/accepts-altered/field/fudge-zero","a6d820e","TsigVerify substituted the default fudge 300 (and the current time) for a zero fudge / time signed found in the received TSIG, so a message whose fudge was changed from 300 to 0 still verified")
 # ---- C13
 fixed("C13","fatal/panic_close_of_closed_channel/.(*Server).serveTCP.func1","66a701b","starting a Server again while a Shutdown of it was still waiting for a handler re-created srv.shutdown under the old serve loop: the process died with 'close of closed channel' (serveTCP/serveUDP epilogue) and ShutdownContext raced with init() on the field; a start is now refused until the previous loop has drained")
